@@ -241,8 +241,19 @@ fn describe_diff(ctx: &Ctx, job: &[String], label: &str, seed: u64, tag: &str) -
             let how = if s0 == s1 { "order-of" } else { "content-of" };
             let line0 = l0.get(i).copied().unwrap_or("<end of file>");
             let line1 = l1.get(i).copied().unwrap_or("<end of file>");
+            // an attribute line (`#owned(str)`, `#[inline]`, `@Foo`) belongs to the item below it
+            let is_attr = |l: &str| {
+                let t = l.trim_start();
+                (t.starts_with("#[") || t.starts_with('@') || t.starts_with('#') && t[1..].starts_with(|c: char| c.is_ascii_lowercase()))
+                    && !["#include", "#define", "#if", "#endif", "#else", "#pragma"].iter().any(|p| t.starts_with(p))
+            };
+            let item_line = l0[i.min(l0.len())..]
+                .iter()
+                .find(|l| !is_attr(l))
+                .copied()
+                .unwrap_or(line0);
             result = (
-                format!("{}:{how}:{}", generic_name(name), construct_kind(line0)),
+                format!("{}:{how}:{}", generic_name(name), construct_kind(item_line)),
                 json!({"file": name, "first_differing_line": i + 1, "seed0_line": line0, "other_seed_line": line1,
                        "same_lines_different_order": s0 == s1}),
             );
